@@ -83,6 +83,35 @@ def failing():
     return F
 
 
+def json_options_leg(ck, H):
+    """-T -j combined with the other output options: stdout stays one JSON array with one document per target."""
+    names = ['good', 'warn', 'fail']
+    tg = [('server', H[n]) for n in names]
+    scs = []
+    for extra in (['-l', 'warn'], ['-l', 'fail'], ['-v'], ['-b'], ['-v', '-l', 'fail'], ['-n', '-b', '-l', 'warn']):
+        for threads in (1, 3):
+            sc, labels = multi.scenario(tg, threads, None, json_out=True, extra=extra)
+            scs.append((sc, extra, threads))
+    for (sc, extra, threads), r in zip(scs, runner.run_many([x[0] for x in scs])):
+        ck.evaluated()
+        if r.get('harness_error') or r.get('hang'):
+            raise common.Machinery('run failed: %r' % (r.get('harness_error') or 'hang'))
+        replay = {'argv': sc['argv'], 'exit': r['exit'], 'stdout': r['stdout'][-1500:]}
+        try:
+            doc = json.loads(r['stdout'])
+            ok = isinstance(doc, list) and len(doc) == 3 and all(isinstance(e, dict) and 'kex' in e for e in doc)
+        except ValueError:
+            ok = False
+        if not ok:
+            ck.violation('json-not-one-array-of-n healthy-only options=%s' % '+'.join(x.lstrip('-') for x in extra if x.startswith('-')),
+                         'three healthy targets with -j %s, %d thread(s): stdout is not a JSON array of three reports: %r' % (' '.join(extra), threads, r['stdout'][:100]), replay)
+        elif r['exit'] != 3:
+            ck.violation('exit-status-not-max healthy-only', 'exit status %r for good+warn+fail targets' % r['exit'], replay)
+        else:
+            ck.cov['traces_validated_against_impl'] += 1
+            ck.nontrivial(('json-options', tuple(extra), threads))
+
+
 def duplicates_leg(ck, H):
     """A target listed more than once (repeated literally, or spelled with and without its port): every *line* yields one block."""
     a, b = multi.ip_of(0), multi.ip_of(1)
@@ -252,6 +281,7 @@ def run(tier):
         traces.append(tr)
         tmeta.append((m, tag))
     duplicates_leg(ck, H)
+    json_options_leg(ck, H)
     verdicts = multi.validate(ck, traces)
     for j, ((m, tag), tr, (ok, info)) in enumerate(zip(tmeta, traces, verdicts)):
         if j in roots:
